@@ -115,6 +115,10 @@ func newResult(t reflect.Type, opts resultOptions) (result, error) {
 				return nil, newErrInvalidInput(fmt.Sprintf(
 					"flatten can be applied to slices only: %v is not a slice", t), nil)
 			}
+			if rg.Type.Kind() != reflect.Slice {
+				return nil, newErrInvalidInput(fmt.Sprintf(
+					"flatten cannot be combined with dig.As: %v is not a slice", rg.Type), nil)
+			}
 			rg.Type = rg.Type.Elem()
 		}
 		return rg, nil
